@@ -1,5 +1,5 @@
 """C20 — the dump lists every event of a compiled file at its true position: streams."""
-from ..core import Stream, hx
+from ..core import Stream, hx, unhx, run_oracle, parse_resp
 from .. import gen, mml
 from .c02 import rich_source
 
@@ -7,9 +7,12 @@ RULE = ("dump: real compiler outputs (sources with all event kinds, TIME(m:b:t) 
         "several tracks, lengths that produce delta bytes 0x7F and multi-byte deltas) are dumped by the real dump_midi; the text is "
         "judged against lines derived from the independent SMF decoder (Spec.decodeTrack) and the position formula (Lean): one line "
         "per event, in file order, position m:b:t under the signature in force, kind and values. gen: generate on random event lists "
-        "(deltas up to 2^28-1) then dump. non-trivial = distinct dump texts with >= 3 event lines")
+        "(deltas up to 2^28-1) then dump. dumptext: the literal model of the whole dump (Model.DumpText.dump — header checks, track loop, per-kind formatting and cursor "
+        "advance, text payload reader) must give the real text character for character on (a) compiler outputs, (b) compiler outputs holding arbitrary verbatim bytes "
+        "(DirectSMF: complete, truncated, meaningless messages) on which the real dump must also return normally, (c) damaged files. non-trivial = distinct dump texts with >= 3 event lines")
 ASSUMPTIONS = ["one time signature per file (the property's quantifier)", "rendering of trailing explanatory comments is not part of the property and is not compared"]
-TRUSTED = ["Spec.Dump (expected lines) is my reading of 'kind and values as written'"]
+TRUSTED = ["Spec.Dump (expected lines) is my reading of 'kind and values as written'",
+           "Model.DumpText is a hand-written literal model of dump_midi; it is tied to the code by the dumptext stream (exact text equality), the theorems C20_walker_lists_every_event / C20_dump_loop_terminates are about it"]
 
 def timed_source(rng):
     """one time signature, notes placed with TIME(m:b:t); deltas around 0x7F"""
@@ -68,4 +71,60 @@ def streams(tier, rng, P, only=None, cases=None):
             cs.append(dict(req="compile_dump " + hx(src), src=src, show=src, key="fixed%d" % j, strict=True))
         return cs
     s1 = Stream("dump", cases if (cases and only == "dump") else mk_src(), model, judge, nt, "compiler outputs dumped by the real dump_midi", timeout_case=20.0)
-    return [s for s in (s1,) if only in (None, s.name)]
+    # ---- dumptext: the literal model of the whole dump (Model.DumpText) against the real text, character for character:
+    #      (a) compiler outputs as above, (b) compiler outputs holding arbitrary verbatim bytes (`DirectSMF`): complete, truncated and
+    #      meaningless messages anywhere in a track — the dump must still return, (c) arbitrary byte strings (damaged files)
+    def mk_text():
+        cs = []
+        n = 1200 if big else 200
+        def rbytes(k): return ",".join(str(rng.choice([rng.randrange(0, 256), rng.randrange(0, 128), 0xFF, 0xF0, 0xF7, 0x90, 0x80, 0x2F, 0x51, 0x58, 0, 3])) for _ in range(k))
+        for i in range(n):
+            r = rng.random()
+            if r < 0.35: src = timed_source(rng) if i % 2 else rich_source(rng)
+            else:
+                parts = []
+                for _ in range(rng.randrange(1, 5)):
+                    parts.append(rng.choice(["c", "d8 e", "r4", "TR(2) c", "TimeSignature(3,8)", "Tempo(90)", "l%200 g", "TrackName={\"a\"};", "@5;"]))
+                    if rng.random() < 0.8: parts.append("DirectSMF(%s)" % rbytes(rng.randrange(1, 9)))
+                src = " ".join(parts)
+            cs.append(dict(req="compile_dump " + hx(src), src=src, show=src[:300], key="t%d" % i, strict=True))
+        for j, src in enumerate(["c DirectSMF($FF)", "c DirectSMF($90)", "c DirectSMF($F0,1)", "DirectSMF(62,100) c", "DirectSMF($FF,1,200,65) c", "DirectSMF($F7,1,$F8) c", "c DirectSMF($E0,1)",
+                                 "DirectSMF($FF,$51,$03,0,0,0) c", "DirectSMF($FF,$58,$04,0,2,24,8) c", "DirectSMF($FF,$58,$04,4,32,24,8) c", "DirectSMF($FF,$58,$04,4,31,24,8) c", "DirectSMF($C0,255) c"]):
+            cs.append(dict(req="compile_dump " + hx(src), src=src, show=src, key="tf%d" % j, strict=True))
+        # (c) damaged files: byte strings derived from real outputs
+        seeds = ["l4 c d e", "TR(1) c TR(2) d Tempo(100)", "TimeSignature(6,8) TIME(3:2:0) c TrackName={\"x\"};", "SysEx$=f0,41,10,42,12,40,00,7f,00,41,f7; c"]
+        bins = []
+        for line in run_oracle(P, ["compile_dump " + hx(x) for x in seeds], tag="c20seed"):
+            st, f = parse_resp(line)
+            if st == "ok": bins.append(bytes.fromhex(f["bin"]))
+        for i in range(600 if big else 120):
+            if not bins: break
+            b = bytearray(rng.choice(bins)); k = rng.random()
+            if k < 0.3: b = b[:rng.randrange(0, len(b) + 1)]
+            elif k < 0.6:
+                for _ in range(rng.randrange(1, 4)): b[rng.randrange(len(b))] = rng.choice([0, 0xFF, 0x80, 0x7F, rng.randrange(256)])
+            elif k < 0.8:
+                p_ = rng.randrange(len(b) + 1); b[p_:p_] = bytes(rng.randrange(256) for _ in range(rng.randrange(1, 6)))
+            elif k < 0.9: b = bytearray(b"MThd\0\0\0\6\0\1" + bytes(rng.randrange(256) for _ in range(rng.randrange(0, 40))))
+            else: b = bytearray(rng.randrange(256) for _ in range(rng.randrange(0, 30)))
+            hb = bytes(b).hex() or "~"
+            cs.append(dict(req="dump " + hb, src=hb, show="bytes " + hb[:120], key="d%d" % i, strict=False, bin=hb))
+        return cs
+    def text_model(c, status, f):
+        if status != "ok": return []
+        return ["dumptext " + (f["bin"] if "bin" in f else c["bin"])]
+    def text_judge(c, impl, m):
+        st, f = impl
+        if st == "hang": return ("violation", "dump does not terminate")
+        if st != "ok":
+            return ("violation", "dump did not return normally on a compiler output: " + st + " " + str(f)[:200]) if c.get("strict") else None
+        want = m[0].split("text=")[1] if m and "text=" in m[0] else None
+        if want != f["text"]:
+            a = unhx(f["text"]).decode("utf-8", "replace").split("\n"); b = unhx(want or "~").decode("utf-8", "replace").split("\n")
+            for x, y in zip(a, b):
+                if x != y: return ("mismatch", "literal dump model differs from the real text: real %r model %r" % (x[:100], y[:100]))
+            return ("mismatch", "literal dump model differs from the real text in length: real %d lines, model %d" % (len(a), len(b)))
+        return None
+    s2 = Stream("dumptext", cases if (cases and only == "dumptext") else mk_text(), text_model, text_judge,
+                lambda c, i, m: i[1].get("text", "")[:400] if i[0] == "ok" else None, "literal dump model vs real text; verbatim bytes; damaged files", timeout_case=20.0)
+    return [s for s in (s1, s2) if only in (None, s.name)]
